@@ -447,7 +447,8 @@ def replay_case(suite, desc):
 
 
 MANIFEST = {
-    "text": ("Universally quantified Coq theorems (Props/C19.v, closed under the global context) about the payload "
+    "text": ("Universally quantified Coq theorems (Props/C19.v: 17, all closed under the global context; Props/C19_floats.v: the "
+             "Flocq float-value corollary, with the classical axioms of the real-number library) about the payload "
              "model instantiated with the tables and constants regenerated from payload.py / constants.py on every "
              "run: for every sequence of typed values over the full range of each type (any length, no bound), every "
              "byte-order x word-order pair, the decoder configured with the same orders returns exactly the values "
